@@ -322,6 +322,17 @@ class Realiser:
                 return f
 
             return o.if_(cond, then_branch=mk(st["then"]), else_branch=mk(st["else"]))[0]
+        if op == "loop":  # two iterations over one state; the body may use outer values
+            o = ops(st["mv"])
+            blk, pid = st["body"], st["param"]
+
+            def body(_i, _c, state):
+                e = dict(env)
+                e[pid] = state
+                self.block(blk["nodes"], e)
+                return [o.const(np.array(True)), e[blk["out"]]]
+
+            return o.loop(o.const(np.array(2, np.int64)), None, [env[st["args"][0]]], body=body)[0]
         if op == "inline":
             from spox import inline
 
@@ -407,6 +418,14 @@ def np_stmt(st, env, c):
         e = dict(env)
         np_block(blk["nodes"], e, c)
         return e[blk["out"]]
+    if op == "loop":
+        state = env[st["args"][0]]
+        for _ in range(2):
+            e = dict(env)
+            e[st["param"]] = state
+            np_block(st["body"]["nodes"], e, c)
+            state = e[st["body"]["out"]]
+        return state
     if op == "inline":
         md = st["model"]
         a = env[st["args"][0]]
@@ -453,6 +472,8 @@ def emitted(st) -> list[tuple[str, str, int]]:
         if st["cond"] in ("t", "f"):
             out.append(("", "Constant", since("", "Constant", st["mv"])))
         return out
+    if op == "loop":
+        return [("", "Loop", since("", "Loop", st["mv"])), ("", "Constant", since("", "Constant", st["mv"]))]
     if op in ("inline", "func"):
         return []
     if op in ML_MACROS:
@@ -466,7 +487,7 @@ def emitted(st) -> list[tuple[str, str, int]]:
 def sub_blocks(st):
     if st["op"] == "if":
         return [st["then"], st["else"]]
-    if st["op"] == "func":
+    if st["op"] in ("func", "loop"):
         return [st["body"]]
     return []
 
@@ -520,6 +541,9 @@ def walk(nodes, depth=0, in_func=False, path=()):
         if st["op"] == "if":
             for b in (st["then"], st["else"]):
                 yield from walk(b["nodes"], depth + 1, in_func, path + ((st["id"], id(b), b),))
+        if st["op"] == "loop":
+            b = st["body"]
+            yield from walk(b["nodes"], depth + 1, in_func, path + ((st["id"], id(b), b),))
         if st["op"] == "func":
             yield from walk(st["body"]["nodes"], depth, True, path)
 
@@ -538,6 +562,11 @@ def tainted_ids(prog) -> set:
                 t |= (a | b)
                 if st["then"]["out"] in a or st["else"]["out"] in b:
                     t.add(st["id"])
+            elif op == "loop":
+                a = set(t)
+                blk(st["body"]["nodes"], a)
+                t |= a
+                t.add(st["id"])  # spox reports a Loop's carried output without a shape unless it is provably stable
             elif op in ("inline",) or op in ML_MACROS:
                 pass  # declared / inferred output types are concrete
             elif op == "func":
@@ -668,10 +697,20 @@ class Gen:
                       "then": tb, "else": eb}
                 if tt or et:
                     tainted.add(st["id"])
-            elif r < 0.24 and self.allow_inline and not in_func:
+            elif r < 0.20 and depth < self.max_depth and self.size >= 2:
+                pid = self.fresh()
+                save_dyn = self.allow_dyn
+                self.allow_dyn = False
+                clean_pool = [p_ for p_ in pool if p_ not in tainted]
+                body, _bt = self.block(clean_pool + [pid, pid], set(), depth + 1, 0, in_func)
+                self.allow_dyn = save_dyn
+                st = {"id": self.fresh(), "op": "loop", "mv": self.mv(), "param": pid, "body": body,
+                      "args": [rng.choice(clean_pool or ["x"])]}
+                tainted.add(st["id"])
+            elif r < 0.27 and self.allow_inline and not in_func:
                 st = {"id": self.fresh(), "op": "inline", "model": self.model_desc(),
                       "args": [rng.choice(pool)]}
-            elif r < 0.30 and self.allow_func and depth == 0 and not in_func:
+            elif r < 0.33 and self.allow_func and depth == 0 and not in_func:
                 np_ = rng.randrange(1, 3)
                 params = [self.fresh() for _ in range(np_)]
                 save = self.max_depth
@@ -691,10 +730,12 @@ class Gen:
                       "domain": rng.choice(["spox.verif", "verif.other"]), "params": params,
                       "body": body, "args": [rng.choice([p for p in pool if p not in tainted] or ["x"])
                                              for _ in range(np_)]}
-            elif r < 0.36 and self.allow_ml:
+                if bt:
+                    tainted.add(st["id"])
+            elif r < 0.39 and self.allow_ml:
                 st = {"id": self.fresh(), "op": rng.choice(list(ML_MACROS)), "mv": rng.choice(ML_VERSIONS),
                       "dv": self.mv(), "args": [rng.choice([p for p in pool if p not in tainted] or ["x"])]}
-            elif r < 0.42 and self.allow_dyn and not in_func:
+            elif r < 0.45 and self.allow_dyn and not in_func:
                 src = rng.choice([p for p in pool if p not in tainted] or ["x"])
                 st = {"id": self.fresh(), "op": "dyn", "mv": self.mv(), "args": [src]}
                 tainted.add(st["id"])
@@ -817,6 +858,11 @@ def prune(prog):
                 b = st["body"]
                 inner = {b["out"]}
                 st["body"] = {"nodes": prune_nodes(b["nodes"], inner), "out": b["out"]}
+            elif st["op"] == "loop":
+                b = st["body"]
+                inner = {b["out"]}
+                st["body"] = {"nodes": prune_nodes(b["nodes"], inner), "out": b["out"]}
+                needed |= inner - {st["param"]}
             kept.append(st)
         kept.reverse()
         return kept
@@ -831,6 +877,8 @@ def _refs(blk, sid) -> bool:
         if sid in st.get("args", []):
             return True
         if st["op"] == "if" and (_refs(st["then"], sid) or _refs(st["else"], sid)):
+            return True
+        if st["op"] == "loop" and _refs(st["body"], sid):
             return True
     return False
 
@@ -851,6 +899,7 @@ def sink(prog):
                 later = nodes[i + 1:]
                 direct = any(sid in s.get("args", []) for s in later)
                 using = [s[k] for s in later if s["op"] == "if" for k in ("then", "else") if _refs(s[k], sid)]
+                using += [s["body"] for s in later if s["op"] == "loop" and _refs(s["body"], sid)]
                 if not direct and len(using) == 1:
                     using[0]["nodes"].insert(0, st)
                     del nodes[i]
@@ -859,7 +908,7 @@ def sink(prog):
             if st["op"] == "if":
                 for k in ("then", "else"):
                     process(st[k]["nodes"], {st[k]["out"]})
-            elif st["op"] == "func":
+            elif st["op"] in ("func", "loop"):
                 process(st["body"]["nodes"], {st["body"]["out"]})
 
     process(prog["nodes"], set(prog["outs"]))
